@@ -485,6 +485,9 @@ def run(ctx):
     ctx.extra['max_snappable_denominator'] = SL.MAXDEN
     ctx.extra['splittings_per_instance'] = [list(t) for t in splits_for(6, quick)]
     ctx.extra['layerC_mirrors_aliased_prox_defect'] = PROX_ALIAS_ZERO == '1'
+    # ---- callbacks as objects (CallbackMachine, lead's extension): every history of Call / Reset on composed callbacks
+    from ..extras import callbacks as CB
+    CB.run_stage(ctx)
     ctx.exhaustive = True    # every instance of the declared catalogue and every splitting is replayed
 
 
